@@ -171,7 +171,10 @@ def reformat(text, kind, rnd):
         for t in reversed(toks):
             if t.type == tokenize.NAME and t.string in chosen and t.start[0] == t.end[0]:
                 l = lines[t.start[0] - 1]
-                lines[t.start[0] - 1] = l[:t.start[1]] + 'é' + t.string + 'ß' + l[t.end[1]:]
+                # (some spellings are not NFKC-stable: micro sign, fi ligature - Python treats them
+                # as the normalised identifier, the text at the position stays as written)
+                pre = ['é', 'é', '\u00b5', '\ufb01'][sum(map(ord, t.string)) % 4]
+                lines[t.start[0] - 1] = l[:t.start[1]] + pre + t.string + 'ß' + l[t.end[1]:]
         return ''.join(lines)
     return text
 
